@@ -80,6 +80,7 @@ pub mod fixed_point_engine_bwd {
 use super::*;
 use super::il::*;
 use super::fixed_point::*;
+use super::fixed_point_engine::DEFAULT_MAX_ANALYSIS_STEPS;
 use std::collections::HashMap;
 use std::fmt::Debug;
 //@ include units/C09/fp_engine_bwd.rs
